@@ -29,6 +29,9 @@ type act struct {
 	Data string   `json:"data,omitempty"` // bytes parameter (invalid encodings, messages, entropy)
 	Step *pt.Step `json:"step,omitempty"` // e.repr: a value-preserving change of representation (white-box builds)
 	Z    bool     `json:"z,omitempty"`    // setters only: the receiver variable is first replaced by a zero-value struct
+	// Ch: a second call is chained on the pointer the method returns (x.Op(..).Add(G).Negate() for elements, x.Op(..).Add(1) for scalars):
+	// methods documented to return the receiver must return it, so that the chained call lands in the variable.
+	Ch bool `json:"ch,omitempty"`
 }
 
 type caseC10 struct {
@@ -55,6 +58,7 @@ func genAct(t *rapid.T) act {
 	case "e.base", "e.identity", "e.set", "e.decode", "e.decodeunc", "e.mulnil":
 		a.Z = gen.Chance(t, "zeroValue", 1, 4)
 	}
+	a.Ch = gen.Chance(t, "chain", 1, 4)
 	switch a.Op {
 	case "s.setu64":
 		a.U = gen.Limb().Draw(t, "u")
@@ -94,8 +98,19 @@ type c10state struct {
 
 var c10dst = []byte("VERIF-C10-history-dst")
 
+var c10verbs = "%s %x"
+
+var c10base = secp256k1.Base()
+
+var c10one = secp256k1.NewScalar().One()
+
 func (st *c10state) check(step int, a act) error {
 	where := fmt.Sprintf("after step %d (%s r=%d a=%d b=%d)", step, a.Op, a.R, a.A, a.B)
+	if a.R >= 0 && a.R < poolSize {
+		// values get printed: formatting goes through whatever interfaces the types implement and must be a pure observer
+		_ = fmt.Sprint(st.E[a.R], st.S[a.R])
+		_ = fmt.Sprintf(c10verbs, st.E[a.R], st.S[a.R])
+	}
 	for i := 0; i < poolSize; i++ {
 		if enc := st.E[i].Encode(); !bytes.Equal(enc, ref.Compress(st.ME[i])) {
 			cls := "history/element-value"
@@ -165,15 +180,19 @@ func runC10(c caseC10, o *gen.Obs) error {
 			st.E[r] = new(secp256k1.Element) // a zero-value struct as receiver of a setter
 			o.Class("zero-value-receiver")
 		}
+		var (
+			eret *secp256k1.Element
+			sret *secp256k1.Scalar
+		)
 		switch a.Op {
 		case "e.base":
-			st.E[r].Base()
+			eret = st.E[r].Base()
 			st.ME[r] = ref.G()
 		case "e.identity":
-			st.E[r].Identity()
+			eret = st.E[r].Identity()
 			st.ME[r] = ref.Infinity()
 		case "e.set":
-			st.E[r].Set(st.E[x])
+			eret = st.E[r].Set(st.E[x])
 			st.ME[r] = st.ME[x]
 		case "e.copy":
 			st.E[r] = st.E[x].Copy()
@@ -198,34 +217,34 @@ func runC10(c caseC10, o *gen.Obs) error {
 			st.E[r] = ne
 			nonUnitZ++
 		case "e.add":
-			st.E[r].Add(st.E[x])
+			eret = st.E[r].Add(st.E[x])
 			st.ME[r] = ref.Add(st.ME[r], st.ME[x])
 			nonUnitZ++
 		case "e.sub":
-			st.E[r].Subtract(st.E[x])
+			eret = st.E[r].Subtract(st.E[x])
 			st.ME[r] = ref.Sub(st.ME[r], st.ME[x])
 			nonUnitZ++
 		case "e.addnil":
-			st.E[r].Add(nil)
+			eret = st.E[r].Add(nil)
 		case "e.subnil":
-			st.E[r].Subtract(nil)
+			eret = st.E[r].Subtract(nil)
 		case "e.double":
-			st.E[r].Double()
+			eret = st.E[r].Double()
 			st.ME[r] = ref.Double(st.ME[r])
 			nonUnitZ++
 		case "e.negate":
-			st.E[r].Negate()
+			eret = st.E[r].Negate()
 			st.ME[r] = ref.Neg(st.ME[r])
 		case "e.mul":
 			if muls >= 6 {
 				continue // bound the cost of the reference multiplication per history
 			}
 			muls++
-			st.E[r].Multiply(st.S[x])
+			eret = st.E[r].Multiply(st.S[x])
 			st.ME[r] = ref.Mul(st.MS[x], st.ME[r])
 			nonUnitZ++
 		case "e.mulnil":
-			st.E[r].Multiply(nil)
+			eret = st.E[r].Multiply(nil)
 			st.ME[r] = ref.Infinity()
 		case "e.decode":
 			if err := st.E[r].Decode(st.E[x].Encode()); err != nil {
@@ -279,22 +298,22 @@ func runC10(c caseC10, o *gen.Obs) error {
 			st.ME[r], _ = ref.EncodeToCurve(msg, c10dst)
 
 		case "s.zero":
-			st.S[r].Zero()
+			sret = st.S[r].Zero()
 			st.MS[r] = new(big.Int)
 		case "s.one":
-			st.S[r].One()
+			sret = st.S[r].One()
 			st.MS[r] = big.NewInt(1)
 		case "s.minusone":
-			st.S[r].MinusOne()
+			sret = st.S[r].MinusOne()
 			st.MS[r] = new(big.Int).Sub(ref.N, bigOne)
 		case "s.setu64":
-			st.S[r].SetUInt64(a.U)
+			sret = st.S[r].SetUInt64(a.U)
 			st.MS[r] = new(big.Int).SetUint64(a.U)
 		case "s.set":
-			st.S[r].Set(st.S[x])
+			sret = st.S[r].Set(st.S[x])
 			st.MS[r] = new(big.Int).Set(st.MS[x])
 		case "s.setnil":
-			st.S[r].Set(nil)
+			sret = st.S[r].Set(nil)
 			st.MS[r] = new(big.Int)
 		case "s.copy":
 			st.S[r] = st.S[x].Copy()
@@ -303,29 +322,29 @@ func runC10(c caseC10, o *gen.Obs) error {
 			cp := st.S[x].Copy()
 			cp.Add(secp256k1.NewScalar().One()).Square()
 		case "s.add":
-			st.S[r].Add(st.S[x])
+			sret = st.S[r].Add(st.S[x])
 			st.MS[r] = modN(new(big.Int).Add(st.MS[r], st.MS[x]))
 		case "s.sub":
-			st.S[r].Subtract(st.S[x])
+			sret = st.S[r].Subtract(st.S[x])
 			st.MS[r] = modN(new(big.Int).Sub(st.MS[r], st.MS[x]))
 		case "s.mul":
-			st.S[r].Multiply(st.S[x])
+			sret = st.S[r].Multiply(st.S[x])
 			st.MS[r] = modN(new(big.Int).Mul(st.MS[r], st.MS[x]))
 		case "s.addnil":
-			st.S[r].Add(nil)
+			sret = st.S[r].Add(nil)
 		case "s.mulnil":
-			st.S[r].Multiply(nil)
+			sret = st.S[r].Multiply(nil)
 			st.MS[r] = new(big.Int)
 		case "s.square":
-			st.S[r].Square()
+			sret = st.S[r].Square()
 			st.MS[r] = modN(new(big.Int).Mul(st.MS[r], st.MS[r]))
 		case "s.invert":
-			st.S[r].Invert()
+			sret = st.S[r].Invert()
 			if st.MS[r].Sign() != 0 {
 				st.MS[r] = new(big.Int).ModInverse(st.MS[r], ref.N)
 			}
 		case "s.pow":
-			st.S[r].Pow(st.S[x])
+			sret = st.S[r].Pow(st.S[x])
 			if st.MS[x].Sign() == 0 {
 				st.MS[r] = big.NewInt(1)
 			} else {
@@ -375,6 +394,16 @@ func runC10(c caseC10, o *gen.Obs) error {
 		default:
 			panic("unknown action " + a.Op)
 		}
+		if a.Ch && eret != nil {
+			eret.Add(c10base).Negate() // chained on the returned pointer: must land in variable r
+			st.ME[r] = ref.Neg(ref.Add(st.ME[r], ref.G()))
+			o.Class("chained-call")
+		}
+		if a.Ch && sret != nil {
+			sret.Add(c10one)
+			st.MS[r] = modN(new(big.Int).Add(st.MS[r], bigOne))
+			o.Class("chained-call")
+		}
 		if (a.Op == "e.add" || a.Op == "e.sub" || a.Op == "e.set" || a.Op == "s.add" || a.Op == "s.sub" || a.Op == "s.mul" || a.Op == "s.pow" || a.Op == "s.set") && r == x {
 			aliased++
 		}
@@ -409,7 +438,7 @@ var c10 = gen.Register(&gen.Check[caseC10]{
 			{Acts: []act{{Op: "s.minusone", R: 0}, {Op: "e.base", R: 0}, {Op: "e.mul", R: 0, A: 0}, {Op: "e.base", R: 1}, {Op: "e.add", R: 1, A: 0}, {Op: "s.mul", R: 0, A: 0}, {Op: "s.add", R: 0, A: 0}, {Op: "s.cselect", R: 0, A: 0, B: 1, U: 2}}},
 		}
 	},
-	Required: []string{"aliased-call", "z!=1", "steps>=10", "act:e.mul", "act:s.random", "act:e.decodebad"},
+	Required: []string{"aliased-call", "z!=1", "steps>=10", "act:e.mul", "act:s.random", "act:e.decodebad", "chained-call"},
 	Run:      runC10,
 })
 
